@@ -417,7 +417,12 @@ package parser
 //@   ensures well-formed: WFN(result)
 //@   use@post wfBooleanLiteralI(as(result, *ast.BooleanLiteral))
 //@   decreases PD(p), 2
+// C06/C07: '~name' means '<directory>/name' for every name (also a one-letter one, and one
+// that happens to begin with the directory's own word); any other name is taken as written
 //@ func (p *Parser) parseAliasPathShortcut
+//@   goal tilde-means-the-directory: len(old(p.curToken.Literal)) >= 1 && old(p.curToken.Literal)[0] == '~' ==> result == shortenTo + "/" + old(p.curToken.Literal)[1:len(old(p.curToken.Literal))]
+//@   goal other-names-are-taken-as-written: len(old(p.curToken.Literal)) >= 1 && old(p.curToken.Literal)[0] != '~' ==> result == old(p.curToken.Literal)
+//@   goal empty-name-is-an-error: old(p.curToken.Literal) == "" ==> result == "" && len(p.errors) == old(len(p.errors)) + 1
 //@   call newError#*: assert line-of-the-current-token: arg1 == p.curToken.Pos.EndLine + 1
 //@   decreases PD(p), 2
 //@ func (p *Parser) checkDuplicateInserts
